@@ -69,6 +69,13 @@ def checkNewIds (taken : List Name) : List Name → Except Err Unit
     else if taken.contains n then .error (.nameError n)
     else checkNewIds (n :: taken) rest
 
+/-- `_check_known_names`: every name is a key of the container and is given once -/
+def checkKnown (keys : List Name) (seen : List Name) : List Name → Except Err Unit
+  | [] => .ok ()
+  | n :: rest =>
+    if !keys.contains n || seen.contains n then .error (.keyError n)
+    else checkKnown keys (n :: seen) rest
+
 /-! ### containers -/
 
 /-- one of the six plain containers of `Content` -/
@@ -105,6 +112,20 @@ def removeG {β} (m : Gen.Mut) (L : Lens β) (n : Name) (s : State) : State × R
   | .containerFirst => andThen (popG L n s) (removeId n)
   | _ => andThen (removeId n s) (popG L n)
 
+/-! ### plural forms: the elements in order, stopping at the first exception -/
+
+def foldOps {α} (f : α → State → State × Res) : List α → State → State × Res
+  | [], s => ok s
+  | a :: rest, s => andThen (f a s) (foldOps f rest)
+
+/-- a plural form: (as far as the source has it) validate all names first, then the elements in order -/
+def pluralOp {α} (m : Gen.Mut) (chk : State → Except Err Unit) (f : α → State → State × Res)
+    (l : List α) (s : State) : State × Res :=
+  let s := inval m s
+  match (if Gen.checksBeforeWrites m ≥ 1 then chk s else .ok ()) with
+  | .error e => fail s e
+  | .ok () => foldOps f l s
+
 /-! ### parameters -/
 
 def addParameter (n : Name) (v : Val) (s : State) : State × Res :=
@@ -130,18 +151,55 @@ def ensureCache (s : State) : State × Except Err Cache :=
     | .ok c => ({ s with cache := some c }, .ok c)
     | .error e => (s, .error e)
 
-def scaleParameter (n : Name) (f : Rat) (s : State) : State × Res :=
-  let s := inval .scale_parameter s
+/-- `_scaled_value`: the parameter's current value (for an assignment-defined one: its cached value)
+    times the factor; only the cache may be filled -/
+def scaledValue (n : Name) (f : Rat) (s : State) : State × Except Err Rat :=
   match s.content.pars.lookup n with
-  | none => fail s (.keyError n)
-  | some (.plain old) => updateParameter n (some (.plain (old * f))) s
+  | none => (s, .error (.keyError n))
+  | some (.plain old) => (s, .ok (old * f))
   | some (.ia _) =>
     match ensureCache s with
     | (s1, .error e) => (s1, .error e)
     | (s1, .ok cache) =>
       match cache.allPars.lookup n with
-      | none => fail s1 (.keyError n)
-      | some v => updateParameter n (some (.plain (v * f))) s1
+      | none => (s1, .error (.keyError n))
+      | some v => (s1, .ok (v * f))
+
+def scaleParameter (n : Name) (f : Rat) (s : State) : State × Res :=
+  let s := inval .scale_parameter s
+  match scaledValue n f s with
+  | (s1, .error e) => (s1, .error e)
+  | (s1, .ok v) => updateParameter n (some (.plain v)) s1
+
+def addParameters (l : List (Name × Val)) (s : State) : State × Res :=
+  pluralOp .add_parameters (fun s => checkNewIds (omKeys s.ids) (l.map (·.1)))
+    (fun kv => addParameter kv.1 kv.2) l s
+
+def removeParameters (l : List Name) (s : State) : State × Res :=
+  pluralOp .remove_parameters (fun s => checkKnown (omKeys s.content.pars) [] l) removeParameter l s
+
+def updateParameters (l : List (Name × Val)) (s : State) : State × Res :=
+  pluralOp .update_parameters (fun s => checkKnown (omKeys s.content.pars) [] (l.map (·.1)))
+    (fun kv => updateParameter kv.1 (some kv.2)) l s
+
+/-- the dict comprehension of `scale_parameters`: every `_scaled_value`, in order -/
+def scaledValues : List (Name × Rat) → State → State × Except Err (List (Name × Val))
+  | [], s => (s, .ok [])
+  | (n, f) :: rest, s =>
+    match scaledValue n f s with
+    | (s1, .error e) => (s1, .error e)
+    | (s1, .ok v) =>
+      match scaledValues rest s1 with
+      | (s2, .error e) => (s2, .error e)
+      | (s2, .ok vs) => (s2, .ok ((n, .plain v) :: vs))
+
+def scaleParameters (l : List (Name × Rat)) (s : State) : State × Res :=
+  let s := inval .scale_parameters s
+  if Gen.delegates .scale_parameters = [.update_parameters] then
+    match scaledValues l s with
+    | (s1, .error e) => (s1, .error e)
+    | (s1, .ok vs) => updateParameters vs s1
+  else foldOps (fun kv => scaleParameter kv.1 kv.2) l s
 
 /-! ### variables -/
 
@@ -176,6 +234,18 @@ def makeVariableStatic (n : Name) (v : Option Rat) (s : State) : State × Res :=
   | some iv =>
     let value : Val := match v with | none => iv | some r => .plain r
     andThen (removeVariable n true s) (addParameter n value)
+
+def addVariables (l : List (Name × Val)) (s : State) : State × Res :=
+  pluralOp .add_variables (fun s => checkNewIds (omKeys s.ids) (l.map (·.1)))
+    (fun kv => addVariable kv.1 kv.2) l s
+
+def removeVariables (l : List Name) (rs : Bool) (s : State) : State × Res :=
+  pluralOp .remove_variables (fun s => checkKnown (omKeys s.content.vars) [] l)
+    (fun n => removeVariable n rs) l s
+
+def updateVariables (l : List (Name × Val)) (s : State) : State × Res :=
+  pluralOp .update_variables (fun s => checkKnown (omKeys s.content.vars) [] (l.map (·.1)))
+    (fun kv => updateVariable kv.1 kv.2) l s
 
 /-! ### `make_parameter_dynamic` -/
 
@@ -331,12 +401,6 @@ def removeSurrogate (n : Name) (s : State) : State × Res :=
   | _ =>
     andThen (removeId n s) fun s => andThen (popSur n s) (removeIds outs)
 
-/-! ### plural forms: the elements in order, stopping at the first exception -/
-
-def foldOps {α} (f : α → State → State × Res) : List α → State → State × Res
-  | [], s => ok s
-  | a :: rest, s => andThen (f a s) (foldOps f rest)
-
 /-! ### ops -/
 
 inductive Op where
@@ -405,12 +469,6 @@ def Op.mut : Op → Gen.Mut
   | .update_data .. => .update_data
   | .remove_data .. => .remove_data
 
-/-- is the op one of the seven loop-over-elements forms? -/
-def Op.plural : Op → Bool
-  | .add_parameters .. | .remove_parameters .. | .update_parameters .. | .scale_parameters ..
-  | .add_variables .. | .remove_variables .. | .update_variables .. => true
-  | _ => false
-
 /-- one public mutator call -/
 def step (s : State) : Op → State × Res
   | .add_parameter n v => addParameter n v s
@@ -418,18 +476,17 @@ def step (s : State) : Op → State × Res
   | .update_parameter n v => updateParameter n v s
   | .scale_parameter n f => scaleParameter n f s
   | .make_parameter_dynamic n iv st => makeParameterDynamic n iv st s
-  | .add_parameters l => foldOps (fun kv => addParameter kv.1 kv.2) l (inval .add_parameters s)
-  | .remove_parameters l => foldOps removeParameter l (inval .remove_parameters s)
-  | .update_parameters l =>
-      foldOps (fun kv => updateParameter kv.1 (some kv.2)) l (inval .update_parameters s)
-  | .scale_parameters l => foldOps (fun kv => scaleParameter kv.1 kv.2) l (inval .scale_parameters s)
+  | .add_parameters l => addParameters l s
+  | .remove_parameters l => removeParameters l s
+  | .update_parameters l => updateParameters l s
+  | .scale_parameters l => scaleParameters l s
   | .add_variable n v => addVariable n v s
   | .remove_variable n rs => removeVariable n rs s
   | .update_variable n v => updateVariable n v s
   | .make_variable_static n v => makeVariableStatic n v s
-  | .add_variables l => foldOps (fun kv => addVariable kv.1 kv.2) l (inval .add_variables s)
-  | .remove_variables l rs => foldOps (fun n => removeVariable n rs) l (inval .remove_variables s)
-  | .update_variables l => foldOps (fun kv => updateVariable kv.1 kv.2) l (inval .update_variables s)
+  | .add_variables l => addVariables l s
+  | .remove_variables l rs => removeVariables l rs s
+  | .update_variables l => updateVariables l s
   | .add_derived n f => addDerived n f s
   | .update_derived n fn args => updateDerived n fn args s
   | .remove_derived n => removeDerived n s
@@ -455,11 +512,14 @@ inductive Query where
   | rhs (vals : Option (List Rat)) (t : Rat)
   | fluxes (vals : Option (List Rat)) (t : Rat)
   | call (t : Rat) (vals : List Rat)
+  | stoich (vals : Option (List Rat)) (t : Rat)
+  | stoichvar (x : Name) (vals : Option (List Rat)) (t : Rat)
 
 inductive Ans where
   | assoc (l : List (Name × Rat))
   | rats (l : List Rat)
   | classes (pars vars : List Name)
+  | table (l : List (Name × List (Name × Rat)))
 
 def cycle (vals : List Rat) : Nat → List Name → List (Name × Rat)
   | _, [] => []
@@ -495,6 +555,20 @@ def rawArgs (c : Content) (cache : Cache) (vars : List (Name × Rat)) (t : Rat) 
   let env ← getArgsEnv c cache vars t
   pure (env.filter (fun kv => !(omKeys c.data).contains kv.1))
 
+/-- the public `get_args(variables, time)` table, then `self._data | args` as lookup environment for
+    computed coefficients (`get_stoichiometries`, `get_stoichiometries_of_variable`) -/
+def coefArgs (c : Content) (cache : Cache) (vals : Option (List Rat)) (t : Rat) : Except Err Env := do
+  let raw ← rawArgs c cache (stateOf c cache vals) t
+  let l ← (argNames c cache false).mapM fun k => do pure (k, ← Env.get raw k)
+  pure (l ++ c.data)
+
+/-- `stoich[rxn] = derived.fn(...)` for one variable's computed coefficients -/
+def overlayRow (env : Env) : List (Name × Fn) → List (Name × Rat) → Except Err (List (Name × Rat))
+  | [], row => pure row
+  | (rxn, f) :: rest, row => do
+    let v ← f.calc env
+    overlayRow env rest (omInsert row rxn v)
+
 /-- the query entry points, given the cache they read -/
 def answer (c : Content) (cache : Cache) : Query → Except Err Ans
   | .init => .ok (.assoc cache.init)
@@ -526,6 +600,17 @@ def answer (c : Content) (cache : Cache) : Query → Except Err Ans
       let dxdt ← rhsFromArgs cache cache.varNames (dep ++ c.data)
       let l ← cache.varNames.mapM fun k => Env.get dxdt k
       pure (.rats l)
+  | .stoich vals t => do
+    let env ← coefArgs c cache vals t
+    let tbl ← overlayDynAll env cache.dynStoich cache.stoich
+    pure (.table tbl)
+  | .stoichvar x vals t => do
+    let env ← coefArgs c cache vals t
+    match cache.stoich.lookup x with
+    | none => .error (.keyError x)
+    | some row =>
+      let r ← overlayRow env ((cache.dynStoich.lookup x).getD []) row
+      pure (.assoc r)
 
 /-- a query: build the cache if there is none, then answer from it -/
 def query (s : State) (q : Query) : State × Except Err Ans :=
